@@ -4,18 +4,18 @@ from checks import unitscheck
 
 MENUS = {
     'quick': [
-        ('badtypes', ['tA', 'tB', 'tM', 'tA2', 'tA2_dup', 'tA2_dup2', 'tA1', 'tA_dupsym', 'ka', 'm_ka_ka'], 6),
+        ('badtypes', ['tA', 'tB', 'tM', 'tA2', 'tA2_dup', 'tA2_dup2', 'tA1', 'tA_dupsym', 'ka', 'm_ka_ka'], 5),
         ('badunits', ['tA', 'tB', 'tAB', 'ka', 'a_dup', 'ka_dupB', 'empty', 'nonstr', 'xb_wrongtype', 'bad_dim',
-                      'arity', 'wrongorder', 'onbase', 'kab'], 6),
-        ('badnoref', ['tA', 'tM', 'tMpA', 'tMpA_dup', 'p', 'p_dup', 'ppa', 'ppka', 'q'], 7),
-        ('ghost', ['tA', 'tB', 'tAB', 'tA2', 'ka', 'cb', 'ha', 'kacb_dup', 'sq_dup', 'm_ka_cb', 'm_ha_ka'], 8),
+                      'arity', 'wrongorder', 'onbase', 'kab'], 5),
+        ('badnoref', ['tA', 'tM', 'tMpA', 'tMpA_dup', 'p', 'p_dup', 'ppa', 'ppka', 'q'], 6),
+        ('ghost', ['tA', 'tB', 'tAB', 'tA2', 'ka', 'cb', 'ha', 'kacb_dup', 'sq_dup', 'm_ka_cb', 'm_ha_ka'], 7),
     ],
     'thorough': [
-        ('badtypes', ['tA', 'tB', 'tM', 'tA2', 'tA2_dup', 'tA2_dup2', 'tA1', 'tA_dupsym', 'ka', 'm_ka_ka', 'ka2', 'tAB'], 7),
+        ('badtypes', ['tA', 'tB', 'tM', 'tA2', 'tA2_dup', 'tA2_dup2', 'tA1', 'tA_dupsym', 'ka', 'm_ka_ka', 'ka2', 'tAB'], 6),
         ('badunits', ['tA', 'tB', 'tAB', 'ka', 'a_dup', 'ka_dupB', 'empty', 'nonstr', 'xb_wrongtype', 'bad_dim',
-                      'arity', 'wrongorder', 'onbase', 'kab', 'cb', 'kacb'], 7),
-        ('badnoref', ['tA', 'tM', 'tMpA', 'p', 'p_dup', 'ppa', 'ppka', 'q', 'ka', 'qpa'], 8),
-        ('ghost', ['tA', 'tB', 'tAB', 'tA2', 'ka', 'cb', 'ha', 'kacb_dup', 'sq_dup', 'm_ka_cb', 'm_ha_ka', 'kacb'], 9),
+                      'arity', 'wrongorder', 'onbase', 'kab', 'cb', 'kacb'], 6),
+        ('badnoref', ['tA', 'tM', 'tMpA', 'p', 'p_dup', 'ppa', 'ppka', 'q', 'ka', 'qpa'], 7),
+        ('ghost', ['tA', 'tB', 'tAB', 'tA2', 'ka', 'cb', 'ha', 'kacb_dup', 'sq_dup', 'm_ka_cb', 'm_ha_ka', 'kacb'], 8),
     ]}
 
 
